@@ -67,6 +67,9 @@ def classify(prov, mk):
             if bad or True:
                 return "text-escape-in-attr", labels, wit or "escape() without quote map inside an attribute value"
     if bad:
+        real = [o for o in origins if o[0] in DANGEROUS and not (o[0] == "UNKNOWN" and o[1] and o[1][-1] == "depth bound")]
+        if not real:
+            return "undecided", labels, wit  # only the analysis' own depth bound stands in the way: not a finding
         return "unsanitised", labels, wit
     return "safe", labels, "origins: %s" % ",".join(sorted(labels))
 
@@ -133,6 +136,9 @@ def run(ctx):
             if verdict != "safe" and h.src in NUMERIC_BY_CONTRACT and not (labels & {"FILE", "DOC"}):
                 assumed.add("%s: %s" % (key, NUMERIC_BY_CONTRACT[h.src]))
                 ctx.ok("R5.1", key, nontrivial=True, sample={"hole": h.src, "context": mk.ctx, "verdict": "numeric by API contract"})
+                continue
+            if verdict == "undecided":
+                ctx.error(key, "provenance of `%s` not decided within the depth bound (%s)" % (h.src, wit))
                 continue
             if verdict == "safe":
                 ctx.ok("R5.1", key, sample={"hole": h.src, "site": where, "context": mk.ctx, "labels": sorted(labels), "why": wit})
